@@ -7,6 +7,7 @@ import sys
 
 HERE = os.path.dirname(os.path.dirname(os.path.abspath(__file__)))
 sys.path.insert(0, HERE)
+from mc import core  # noqa: E402
 props = [json.loads(l) for l in open(os.path.join(HERE, 'properties.jsonl'))]
 checks, na = [], []
 engines = {}
@@ -26,7 +27,7 @@ for p in props:
         'engine': getattr(mod, 'ENGINE', 'E1'),
         'level_claimed': {'category': mod.LEVEL, 'text': getattr(mod, 'LEVEL_TEXT', mod.RULE), 'design_ref': f'DESIGN.md section 4, {pid}'},
         'level_note': getattr(mod, 'LEVEL_NOTE', '; '.join(mod.ASSUMPTIONS)),
-        'technique': mod.TECHNIQUE,
+        'technique': core.technique_of(mod),
     })
     for e in getattr(mod, 'ENGINE', 'E1').replace(' ', '').split('+'):
         engines.setdefault(e, []).append(pid)
